@@ -93,6 +93,13 @@ def cases(tier, seed):
             out.append({"scale": scales[(t + len(out)) % len(scales)], "cells": [cell(sd, t, 2)]})
     for n in range(40 if tier == "quick" else 600):
         out.append({"scale": rnd.choice(scales), "cells": [cell() for _ in range(rnd.randint(2, 4))]})
+    # cell identifiers: the list positions, a rotation of them (the identifier of one cell is the position of another), or unrelated
+    for j, c in enumerate(out):
+        n = len(c["cells"])
+        if j % 3 == 1 and n > 1:
+            c["ids"] = [(i + 1) % n for i in range(n)]
+        elif j % 3 == 2:
+            c["ids"] = [10 + 3 * i for i in range(n)]
     for i, c in enumerate(out):
         c["k"] = i + 1
     return out
